@@ -7,11 +7,11 @@ use crate::refcodec::*;
 use serde_json::json;
 
 const OWN: [u8; 8] = [0, 0, 0, 0, 0, 0, 0, 0x10];
-const P1S: [u8; 3] = [128, 127, 129];
-const CLASSES: [u8; 5] = [248, 6, 127, 128, 255];
-const ACCS: [u8; 3] = [0x21, 0x22, 0xfe];
-const VARS: [u16; 2] = [0x4000, 0x5000];
-const P2S: [u8; 2] = [128, 127];
+const P1S: [u8; 5] = [128, 127, 129, 0, 255];
+const CLASSES: [u8; 7] = [248, 6, 127, 128, 255, 1, 126];
+const ACCS: [u8; 5] = [0x21, 0x22, 0xfe, 0x17, 0x80];
+const VARS: [u16; 4] = [0x4000, 0x5000, 0x8000, 0xffff];
+const P2S: [u8; 4] = [128, 127, 0, 255];
 const STEPS: [u16; 5] = [0, 1, 2, 3, 254];
 
 #[derive(Clone, Debug)]
